@@ -28,7 +28,7 @@ func batchTrace(en *Env, cfg h.Cfg) {
 	nkeys := 2 + r.Intn(4)
 	dir := en.FreshDir()
 	defer en.Drop(dir)
-	u := h.SimpleKeys(nkeys, 5+r.Intn(8))
+	u := h.PickKeys(r, nkeys, 5+r.Intn(8))
 	vs := h.NewValues()
 	e := h.NewEng(dir, en.Work+"/scratch", cfg, u, vs, en.T)
 	en.T.Emit(h.Ev{"ev": "reset", "n": nkeys, "seed": en.Seed, "prof": "batch"})
